@@ -93,3 +93,13 @@ package signaller
 //@ modifies PendingIDs
 //@ ensures forall j :: 0 <= j && j < len(prices) ==> !has(PendingIDs, prices[j].SignalID)
 //@ loop 0: invariant forall j :: 0 <= j && j < #i ==> has(PendingIDs, prices[j].SignalID)
+
+// ---- C20: a signal that is in flight is not considered again until it is released -----------------------------------------
+// the candidate ids of a round: the current feeds MINUS the signals marked in flight (each candidate is a current feed and
+// is not pending)
+//@ func (s *Signaller) getAllSignalIDs
+//@ ensures forall j :: 0 <= j && j < len(result) ==> has(s.signalIDToFeed, result[j])
+//@ loop 0: invariant forall j :: 0 <= j && j < len(signalIDs) ==> has(s.signalIDToFeed, signalIDs[j])
+//@ func (s *Signaller) getNonPendingSignalIDs
+//@ ensures forall j :: 0 <= j && j < len(result) ==> has(s.signalIDToFeed, result[j]) && !has(PendingIDs, result[j])
+//@ loop 0: invariant forall j :: 0 <= j && j < len(filtered) ==> has(s.signalIDToFeed, filtered[j]) && !has(PendingIDs, filtered[j])
